@@ -6,7 +6,10 @@ design     MC_Centrality: the line-graph / bipartite betweenness and closeness o
 code->spec oracle mode (Oracle_C20): TLC decides the key sets of the returned dictionaries and emits the
            exact rationals and the integer structures; floats are compared on this side.
            A fifth of the random static hypergraphs and two thirds of the connected uniform ones are reached by EDITING an
-           object on which every centrality has already been computed (per-object memoisation).
+           object on which every centrality has already been computed (per-object memoisation); a fifth of the others by an
+           edit that keeps the numbers of nodes and hyperedges, after calls with the same arguments (same_counts).
+           Structured inputs with 10-12 nodes (dense core + path; two dense clusters joined by a few triples) exercise the
+           sub-hypergraph centrality over dozens of orders of magnitude and CEC / HEC at a small spectral gap.
 """
 import concurrent.futures as cf
 import contextlib
@@ -128,12 +131,13 @@ def build_temporal(b, tedges, rng):
 
 
 # ---------------------------------------------------------------------------
-def observe_static(b, obj, ss, eigen_seeds):
-    """every centrality of a static hypergraph; returns (case for TLC, log for this side)"""
+def observe_static(b, obj, ss, eigen_seeds, node_fns=True):
+    """every centrality of a static hypergraph; returns (case for TLC, log for this side).  Structured inputs (dozens of
+    hyperedges) are observed with ss = () and node_fns = False: TLC then emits the integer structures only"""
     import hypergraphx.measures.s_centralities as SC
     from hypergraphx.measures.sub_hypergraph_centrality import subhypergraph_centrality
     import hypergraphx.measures.eigen_centralities as EC
-    case = {"what": "static", "st": b.state(obj), "ss": list(ss), "nodes": True, "ekeys": [], "nkeys": []}
+    case = {"what": "static", "st": b.state(obj), "ss": list(ss), "nodes": bool(node_fns), "ekeys": [], "nkeys": []}
     log = {"edge": [], "node": [], "errors": []}
     for s in ss:
         for name, fn in (("s_betweenness", SC.s_betweenness), ("s_closeness", SC.s_closeness)):
@@ -144,7 +148,7 @@ def observe_static(b, obj, ss, eigen_seeds):
             keys = [unlab_key(b, k) for k in v]
             case["ekeys"].append({"fn": name, "s": s, "keys": keys})
             log["edge"].append({"fn": name, "s": s, "values": {tuple(k): float(x) for k, x in zip(keys, v.values())}})
-    for name, fn in (("s_betweenness_nodes", SC.s_betweenness_nodes), ("s_closeness_nodes", SC.s_closeness_nodes)):
+    for name, fn in (("s_betweenness_nodes", SC.s_betweenness_nodes), ("s_closeness_nodes", SC.s_closeness_nodes)) if node_fns else ():
         v, err, _ = call(fn, obj)
         if err:
             log["errors"].append([name, 0, err])
@@ -181,7 +185,38 @@ def observe_static(b, obj, ss, eigen_seeds):
     return case, log
 
 
-def judge_static(log, val):
+_EXACT = {}
+# structured inputs: tolerance relative to the exact reference value.  An eigendecomposition in doubles resolves the eigenvector
+# entries v_i ~ 1e-11 of the far path nodes to a few 1e-16 absolute, i.e. log(exp(lambda_max) v_i^2) to ~1e-7 relative (worst seen
+# over 40 node orders per shape: 2.4e-7); the statement promises the value, not more digits than double arithmetic on it gives
+STRUCT_RTOL = 1e-5
+
+
+def exact_log_expm_diagonal(W):
+    """log(expm(W)_ii) for a symmetric non-negative INTEGER matrix from the exact integer powers (no cancellation, no eigenvectors):
+    expm(W)_ii = sum_k (W^k)_ii / k!,  (W^2h)_ii = |row i of W^h|^2,  (W^(2h+1))_ii = <row i of W^h, row i of W^(h+1)>;
+    the tail beyond k = 3 * (largest row sum) + 60 is below 1e-30 of the sum"""
+    key = tuple(tuple(int(x) for x in row) for row in W)
+    if key not in _EXACT:
+        n = len(key)
+        A = np.array(key, dtype=object).reshape(n, n)
+        H = (3 * max(sum(r) for r in key) + 60) // 2
+        K = 2 * H + 1
+        f = [1] * (K + 1)
+        for k in range(K - 1, -1, -1):
+            f[k] = f[k + 1] * (k + 1)             # K! / k!
+        P = np.array([[int(i == j) for j in range(n)] for i in range(n)], dtype=object)
+        tot = np.array([0] * n, dtype=object)
+        for h in range(H + 1):
+            Q = P.dot(A)
+            tot = tot + (P * P).sum(axis=1) * f[2 * h] + (P * Q).sum(axis=1) * f[2 * h + 1]
+            P = Q
+        import math
+        _EXACT[key] = np.array([math.log(int(t)) - math.lgamma(K + 1) for t in tot])
+    return _EXACT[key]
+
+
+def judge_static(log, val, structured=None):
     bad = {}
     for name, s, err in log["errors"]:
         bad[name + "_returns"] = "s=%s %s" % (s, err)
@@ -202,19 +237,24 @@ def judge_static(log, val):
     for i, j, w in val["comember"]:
         W[ix[i], ix[j]] = W[ix[j], ix[i]] = w
     if "shc" in log:
-        exp = np.log(np.diag(scipy.linalg.expm(W))) if len(nodes) else np.zeros(0)
+        if structured and len(nodes):
+            # entries spanning dozens of orders of magnitude: the reference is exact, the tolerance relative to it
+            exp, rtol = exact_log_expm_diagonal(W), STRUCT_RTOL
+        else:
+            exp, rtol = (np.log(np.diag(scipy.linalg.expm(W))) if len(nodes) else np.zeros(0)), 1e-8
         got = log["shc"]["values"]
         if log["shc"]["n"] != len(nodes) or set(got) != set(nodes):
             bad["subhypergraph_centrality_one_value_per_node"] = "%d values for nodes %s" % (log["shc"]["n"], nodes)
         else:
             for n in nodes:
-                if not abs(got[n] - exp[ix[n]]) <= 1e-8 * max(1.0, abs(exp[ix[n]])):
-                    bad["subhypergraph_centrality_is_log_expm_diagonal"] = "node %d: returned %r, log(expm(Adj))_ii = %r" % (n, got[n], float(exp[ix[n]]))
+                if not abs(got[n] - exp[ix[n]]) <= rtol * max(1.0, abs(exp[ix[n]])):
+                    bad["subhypergraph_centrality_is_log_expm_diagonal"] = "node %d: returned %r, log(expm(Adj))_ii = %r%s" % (
+                        n, got[n], float(exp[ix[n]]), " (exact integer series)" if structured else "")
                     break
     return bad, W, nodes
 
 
-def judge_eigen(log, val, W, nodes, stats):
+def judge_eigen(log, val, W, nodes, stats, structured=None):
     """CEC / HEC runs on a connected k-uniform hypergraph labelled 0..N-1 (flags decided by TLC)"""
     bad = {}
     k = val["uniform"]
@@ -234,6 +274,8 @@ def judge_eigen(log, val, W, nodes, stats):
         if r["not_converged"] or (name == "CEC" and slow):
             stats[name + "_not_converged"] = stats.get(name + "_not_converged", 0) + 1
             continue
+        if structured:
+            stats[name + "_runs_judged_on_two_cluster_inputs"] = stats.get(name + "_runs_judged_on_two_cluster_inputs", 0) + 1
         if sorted(r["keys"]) != nodes or len(r["keys"]) != len(nodes):
             bad[name + "_one_value_per_node"] = "seed %d: keys %s" % (r["seed"], r["keys"])
             continue
@@ -367,6 +409,17 @@ ASSUMPTIONS = (
     "history of the OBJECT: a fifth of the random static hypergraphs and two thirds of the connected uniform ones and a sixth of the temporal ones are reached by editing "
     "(remove_edge / add_edge, same nodes) an object on which every centrality has already been computed; the statement speaks about the "
     "hypergraph as it is, so the observation is judged like any other against the state read back through the public API",
+    "same_counts: a further fifth of the remaining static and temporal hypergraphs is reached by an edit that keeps the numbers of nodes and hyperedge "
+    "records (k replaced by k others of the same sizes, same times) after every centrality was computed on the object with the arguments of the "
+    "judged observation (the first argument combination of each function once more at the end), nothing computed in between",
+    "structured inputs with 10-12 nodes (not sent through the rational Brandes oracle: TLC emits their integer structures only, s-centralities are "
+    "not computed on them): (a) a dense core - all z-subsets of 6-7 nodes, z from {3,4,5} - with a path of 3-5 pairs hanging off it; the "
+    "sub-hypergraph centrality of the far path nodes is exp(lambda_max) v_i^2 with v_i down to 1e-11, so the reference there is the EXACT integer "
+    "series sum_k (Adj^k)_ii / k! (Python integers, no eigenvectors) and the tolerance is relative to the reference: 1e-5 * max(1, |log expm(Adj)_ii|) "
+    "(an eigendecomposition in doubles gives ~1e-7 there; the shape 7 / {3,4,5} / 5 with v_i = 5e-12 is left out); "
+    "(b) two clusters of 5 nodes with all triples, joined by 1-3 triples (3-uniform, connected, second eigenvalue of the clique expansion at "
+    "0.93-0.99 of the first): CEC / HEC are judged as on every other input - CEC_centrality promises tol=1e-7 within max_iter=1000 steps, demanded is "
+    "|W c - lambda c| <= 100 tol lambda_max; shapes on which 1000 steps cannot reach that (ratio^1000 > 1e-9) are counted, not judged",
     "node labels are integers and strings (the families of harness.binding plus strings containing E); tuple-valued labels are not used: the "
     "container's own node mapping (Hypergraph.get_mapping) does not accept them")
 
@@ -410,6 +463,136 @@ def static_specs(tier, seed, rng):
     return specs
 
 
+# ---------------------------------------------------------------------------
+# structured inputs with 10-12 nodes for the sub-hypergraph centrality and CEC / HEC (their own generator: the specs above stay
+# what they were for a given seed).  They carry dozens of hyperedges, so the s-centralities (exact rational Brandes in TLC on
+# the line graph) are NOT computed on them: TLC decodes the logged state and emits the integer structures, numpy decides.
+LABELS12 = {"zero": lambda n: list(range(n)), "ident": lambda n: list(range(1, n + 1)),
+            "sparse": lambda n: [10, 3, 7, 5, 12, 1, 8, 40, 2, 33, 21, 17][:n],
+            "str": lambda n: ["b", "a", "d", "c", "f", "e", "g", "k", "h", "j", "m", "l"][:n]}
+CORE_PATH_ALWAYS = [(7, (3, 4), 5), (7, (4,), 5), (6, (3, 4), 5), (7, (3, 4, 5), 4)]
+TWO_CLUSTER_CHAINS = {           # a*: nodes of the first cluster, b*: of the second, m*: new nodes 11, 12
+    "L1a": [("a1", "b1", "m1")], "L1b": [("a1", "a2", "b1")],
+    "L2a": [("a1", "a2", "m1"), ("m1", "b1", "b2")], "L2b": [("a1", "m1", "m2"), ("m2", "b1", "b2")],
+    "L2c": [("a1", "m1", "m2"), ("m1", "m2", "b1")],
+    "L3a": [("a1", "a2", "m1"), ("m1", "m2", "b1"), ("m2", "b2", "b3")],
+    "L3b": [("a1", "a2", "m1"), ("m1", "m2", "b1"), ("m1", "m2", "b2")],
+    "L3c": [("a1", "m1", "m2"), ("m1", "m2", "b1"), ("a2", "a3", "m1")]}
+TWO_CLUSTER_ALWAYS = ["L1a", "L2b", "L3b", "L3c"]        # second eigenvalue of the clique expansion at 0.95-0.97 of the first
+
+
+def core_path(c, zs, L):
+    """(a) a dense core (all z-subsets of 1..c, z in zs) with a path of L pairs hanging off node c: the far path nodes have
+    expm(Adj)_ii = exp(lambda_max) v_i^2 + ... with v_i down to 1e-11"""
+    es = [e for z in zs for e in itertools.combinations(range(1, c + 1), z)]
+    es += [(c + j, c + j + 1) for j in range(L)]
+    return c + L, es
+
+
+def two_clusters(name, rng):
+    """(b) two clusters of 5 nodes (all triples inside each) joined by 1-3 triples: connected, 3-uniform, small spectral gap"""
+    a, b_ = rng.sample(range(1, 6), 3), rng.sample(range(6, 11), 3)
+    sym = {"a1": a[0], "a2": a[1], "a3": a[2], "b1": b_[0], "b2": b_[1], "b3": b_[2], "m1": 11, "m2": 12}
+    chain = [tuple(sorted(sym[x] for x in t)) for t in TWO_CLUSTER_CHAINS[name]]
+    es = list(itertools.combinations(range(1, 6), 3)) + list(itertools.combinations(range(6, 11), 3)) + chain
+    return max(max(e) for e in es), es
+
+
+def structured_specs(tier, seed, first_index):
+    rng = random.Random(seed * 7919 + 20)
+    quick = tier == "quick"
+    specs = []
+
+    def add(n, es, labelings, eigen_seeds, what, text):
+        i = first_index + len(specs)
+        specs.append({"kind": "static", "n": n, "edges": [list(e) for e in es], "labelings": labelings, "extra": True,
+                      "eigen_seeds": eigen_seeds or [[] for _ in labelings], "case_seed": seed * 1000211 + i,
+                      "structured": what, "shape": text, "ss": []})
+    combos = [(c, zs, L) for c in (6, 7) for zs in ((3,), (4,), (5,), (3, 4), (3, 5), (4, 5), (3, 4, 5)) for L in (3, 4, 5)]
+    # left out: the one shape with v_i = 5e-12, where the eigendecomposition route is off by up to 2.3e-6 relative depending on the node
+    # order (longer paths are off by whole units - reported as a candidate defect, outside the sizes this check builds)
+    combos.remove((7, (3, 4, 5), 5))
+    if quick:
+        rest = [x for x in combos if x not in CORE_PATH_ALWAYS]
+        combos = CORE_PATH_ALWAYS + rng.sample(rest, 8)
+    for c, zs, L in combos:
+        n, es = core_path(c, zs, L)
+        f1, f2 = rng.sample(sorted(LABELS12), 2)
+        l2 = LABELS12[f2](n)
+        rng.shuffle(l2)
+        add(n, es, [LABELS12[f1](n), l2], None, "core_path",
+            "all %s-subsets of 1..%d and the path %s (%d hyperedges)" % ("/".join(map(str, zs)), c, "-".join(map(str, range(c, c + L + 1))), len(es)))
+    names = sorted(TWO_CLUSTER_CHAINS)
+    if quick:
+        names = TWO_CLUSTER_ALWAYS + rng.sample([x for x in names if x not in TWO_CLUSTER_ALWAYS], 2)
+    else:
+        names = names * 4
+    for j, name in enumerate(names):
+        n, es = two_clusters(name, rng)
+        seeds = [(seed * 89 + j * 137 + x) % (2 ** 31) for x in range(3 if quick else 8)]
+        perm = list(range(n))
+        rng.shuffle(perm)
+        add(n, es, [list(range(n)), perm], [seeds, seeds[:1]], "two_clusters",
+            "all triples of 1..5, all triples of 6..10, joined by %s" % [list(e) for e in es[20:]])
+    return specs
+
+
+# ---------------------------------------------------------------------------
+# histories of ONE object that keep the numbers of nodes and hyperedges (same_counts): prev_edges is `edges` with k hyperedges
+# replaced by k others of the same sizes over the same nodes; every centrality is computed on the object while it holds
+# prev_edges, with the arguments of the judged observation (the first argument combination of each function once more at the
+# end), then the object is edited in place and observed - nothing is computed in between
+HISTORY_SHARE = 0.2
+
+
+def swapped(records, universe, hr, ok, size=len, make=None):
+    records = list(records)
+    if not records:
+        return None
+    for _ in range(30):
+        out = hr.sample(records, hr.randint(1, min(2, len(records))))
+        new = []
+        for r in out:
+            for _ in range(10):
+                o = make(r, tuple(sorted(hr.sample(universe, size(r))))) if make else tuple(sorted(hr.sample(universe, size(r))))
+                if o not in records and o not in new:
+                    new.append(o)
+                    break
+        if len(new) == len(out):
+            before = [r for r in records if r not in out] + new
+            if ok(before):
+                return sorted(before)
+    return None
+
+
+def add_histories(specs, tspecs, hr):
+    from checks.c18 import is_connected
+    for sp in specs:
+        if sp.get("prev_edges") is not None or hr.random() >= HISTORY_SHARE:
+            continue
+        edges = [tuple(e) for e in sp["edges"]]
+        used = sorted(set().union(*map(set, edges))) if edges else []
+        eig = any(sp["eigen_seeds"])
+        universe = list(range(1, sp["n"] + 1)) if sp["extra"] else used
+
+        def ok(before, sp=sp, used=used, eig=eig):
+            if not sp["extra"] and sorted(set().union(*map(set, before))) != used:
+                return False            # the nodes of the object are those of its hyperedges: they must stay the same
+            return is_connected(sp["n"], before) if eig else True
+        before = swapped(edges, universe, hr, ok)
+        if before is not None:
+            sp["prev_edges"], sp["same_counts"] = [list(e) for e in before], True
+    for sp in tspecs:
+        if sp.get("prev_timed_edges") is not None or hr.random() >= HISTORY_SHARE:
+            continue
+        recs = [(tm, tuple(e)) for tm, e in sp["timed_edges"]]
+        used = sorted(set().union(*[set(e) for _, e in recs]))
+        before = swapped(recs, used, hr, lambda bf, used=used: sorted(set().union(*[set(e) for _, e in bf])) == used,
+                         size=lambda r: len(r[1]), make=lambda r, e: (r[0], e))
+        if before is not None:
+            sp["prev_timed_edges"], sp["same_counts"] = [[tm, list(e)] for tm, e in before], True
+
+
 def static_validate(res, specs, stats, procs=8):
     cases, logs, descr = [], [], []
     for si, sp in enumerate(specs):
@@ -417,31 +600,44 @@ def static_validate(res, specs, stats, procs=8):
         for labels, eseeds in zip(sp["labelings"], sp["eigen_seeds"]):
             b = Binding("hg", labels, rng)
             extra = tuple(range(1, sp["n"] + 1)) if sp["extra"] else ()
+            ss, node_fns = tuple(sp.get("ss", (1, 2, 3))), not sp.get("structured")
             if sp.get("prev_edges") is not None:
                 obj = build_static(b, [tuple(e) for e in sp["prev_edges"]], rng, extra_nodes=extra)
-                observe_static(b, obj, (1, 2, 3), eseeds[:1])           # judged on its own elsewhere; here it is the past
+                observe_static(b, obj, ss, eseeds[:1], node_fns)        # judged on its own elsewhere; here it is the past
+                if sp.get("same_counts"):       # the last call of every function before the edit = its first call after it
+                    observe_static(b, obj, ss[:1], eseeds[:1], node_fns)
                 mutate(b, obj, sp["prev_edges"], sp["edges"], rng)
             else:
                 obj = build_static(b, [tuple(e) for e in sp["edges"]], rng, extra_nodes=extra)
-            c, log = observe_static(b, obj, (1, 2, 3), eseeds)
+            c, log = observe_static(b, obj, ss, eseeds, node_fns)
             cases.append(c)
             logs.append(log)
-            descr.append({"n": sp["n"], "hyperedges": sp["edges"], "labels": labels, "all_nodes_added": sp["extra"], "spec": si})
+            descr.append({"n": sp["n"], "hyperedges": sp["edges"] if not sp.get("structured") else sp["shape"], "labels": labels,
+                          "all_nodes_added": sp["extra"], "spec": si})
+            if sp.get("structured"):
+                descr[-1]["structured"] = sp["structured"]
             if sp.get("prev_edges") is not None:
-                descr[-1]["object_edited_after_earlier_calls_from"] = sp["prev_edges"]
+                pe = sp["prev_edges"]
+                if sp.get("structured"):
+                    now = {tuple(e) for e in sp["edges"]}
+                    pe = {"instead_of": [e for e in sp["edges"] if tuple(e) not in {tuple(x) for x in pe}], "it_held": [e for e in pe if tuple(e) not in now]}
+                descr[-1]["object_edited_after_earlier_calls_from"] = pe
+                if sp.get("same_counts"):
+                    descr[-1]["same_numbers_of_nodes_and_hyperedges_and_same_arguments_before_the_edit"] = True
     v = O.run_oracle("Oracle_C20", cases, {"Kind": "hg"}, procs=procs)
     tl = dict(v["rejects"])
     per_spec = {}
     nrej = 0
     for i, (log, val) in enumerate(zip(logs, v["values"])):
         failed = keys_named(tl.get(i, []), cases[i], val["edges"], [val["nodes"]])
-        bad, W, nodes = judge_static(log, val)
+        structured = descr[i].get("structured")
+        bad, W, nodes = judge_static(log, val, structured)
         failed.update(bad)
         eig = {}
         if "eig" in log:
             if not (val["uniform"] in (3, 4) and val["connected"] and val["zero_based"]):
                 raise tlc.TLCError("C20: harness built an input outside the CEC/HEC scope: %s" % descr[i])
-            bad, eig = judge_eigen(log, val, W, nodes, stats)
+            bad, eig = judge_eigen(log, val, W, nodes, stats, structured)
             failed.update(bad)
         per_spec.setdefault(descr[i]["spec"], []).append((i, log, eig))
         if failed:
@@ -462,9 +658,10 @@ def static_validate(res, specs, stats, procs=8):
                             failed[r1["fn"] + "_carried_by_relabelling"] = "%s: %r under %s, %r under %s" % (
                                 k_, x, descr[i1]["labels"], r2["values"][k_], descr[i2]["labels"])
         if "shc" in l1 and "shc" in l2:
+            rtol = 2 * STRUCT_RTOL if descr[i1].get("structured") else 1e-8     # structured: each side within STRUCT_RTOL of the exact value
             for k_, x in l1["shc"]["values"].items():
                 y = l2["shc"]["values"].get(k_)
-                if y is not None and not abs(x - y) <= 1e-8 * max(1.0, abs(x)):
+                if y is not None and not abs(x - y) <= rtol * max(1.0, abs(x)):
                     failed["subhypergraph_centrality_carried_by_relabelling"] = "node %s: %r vs %r" % (k_, x, y)
         for name in e1:
             if name in e2 and np.abs(e1[name] - e2[name]).max() > 1e-4:
@@ -515,6 +712,8 @@ def temporal_validate(res, specs, procs=8):
             prev = [(tm, tuple(e)) for tm, e in sp["prev_timed_edges"]]
             obj = build_temporal(b, prev, rng)
             observe_temporal(b, obj, sp["ss"])
+            if sp.get("same_counts"):
+                observe_temporal(b, obj, sp["ss"][:1])
             ops = [("remove", x) for x in sorted(set(prev) - set(cur))] + [("add", x) for x in sorted(set(cur) - set(prev))]
             rng.shuffle(ops)
             with captured():
@@ -531,6 +730,8 @@ def temporal_validate(res, specs, procs=8):
         descr.append({"n": sp["n"], "timed_hyperedges": sp["timed_edges"], "labels": sp["labels"], "temporal": True})
         if sp.get("prev_timed_edges") is not None:
             descr[-1]["object_edited_after_earlier_calls_from"] = sp["prev_timed_edges"]
+            if sp.get("same_counts"):
+                descr[-1]["same_numbers_of_nodes_and_hyperedges_and_same_arguments_before_the_edit"] = True
     v = O.run_oracle("Oracle_C20", cases, {"Kind": "temp"}, procs=procs)
     tl = dict(v["rejects"])
     nrej = 0
@@ -549,8 +750,13 @@ def run(tier, seed):
     stats = {"CEC_runs": 0, "HEC_runs": 0, "CEC_not_converged": 0, "HEC_not_converged": 0}
     with cf.ThreadPoolExecutor(max_workers=2) as ex:
         futs = [ex.submit(_explore_one, j) for j in explore_jobs(tier)]
-        cases, logs, descr, v, nrej, nrel = static_validate(res, static_specs(tier, seed, rng), stats)
-        tcases, tlogs, tdescr, tv, tnrej = temporal_validate(res, temporal_specs(tier, seed, rng))
+        sspecs = static_specs(tier, seed, rng)
+        tspecs = temporal_specs(tier, seed, rng)
+        # later families and the same_counts histories draw from their own generators: the specs above stay what they were for a seed
+        sspecs += structured_specs(tier, seed, len(sspecs))
+        add_histories(sspecs, tspecs, random.Random(seed * 7919 + 21))
+        cases, logs, descr, v, nrej, nrel = static_validate(res, sspecs, stats)
+        tcases, tlogs, tdescr, tv, tnrej = temporal_validate(res, tspecs)
         runs = [f.result() for f in futs]
     res.cov(states=sum(r["states"] for r in runs), transitions=sum(r["transitions"] for r in runs))
     res.coverage["explorations"] = runs
@@ -578,7 +784,14 @@ def run(tier, seed):
             temporal_on_edited_objects=sum(1 for d in tdescr if d.get("object_edited_after_earlier_calls_from") is not None),
             static_on_edited_objects=sum(1 for d in descr if d.get("object_edited_after_earlier_calls_from") is not None),
             eigen_on_edited_objects=sum(1 for d, l in zip(descr, logs) if "eig" in l and d.get("object_edited_after_earlier_calls_from") is not None),
+            objects_measured_again_after_in_place_edit=sum(1 for d in descr + tdescr if d.get("same_numbers_of_nodes_and_hyperedges_and_same_arguments_before_the_edit")),
+            temporal_objects_measured_again_after_in_place_edit=sum(1 for d in tdescr if d.get("same_numbers_of_nodes_and_hyperedges_and_same_arguments_before_the_edit")),
+            structured_core_path_cases=sum(1 for d in descr if d.get("structured") == "core_path"),
+            structured_two_cluster_cases=sum(1 for d in descr if d.get("structured") == "two_clusters"),
             traces_validated_against_impl=len(cases) + len(tcases), validator_states=v["states"] + tv["states"], **stats)
+    plain_cases = [i for i, d in enumerate(descr) if not d.get("structured")]
+    if plain_cases:
+        descr, logs = [descr[i] for i in plain_cases], [logs[i] for i in plain_cases]
     if cases:
         res.sample({"case": descr[-1], "CEC/HEC": [{k: r[k] for k in ("fn", "seed", "values", "not_converged") if k in r} for r in logs[-1].get("eig", [])][:2]})
     if tcases:
